@@ -85,6 +85,12 @@ SPEC = [
          params=[("samples_per_block", "Z"), ("tbin", "Q")], ret="Q"),
     dict(group="20", name="record_obs_length", file="setigen/voltage/backend.py", cls="RawVoltageBackend", func="record", what="assign:self.obs_length",
          params=[("num_blocks", "Z"), ("time_per_block", "Q")], ret="Q"),
+    dict(group="16", name="cadence_time", file="setigen/cadence.py", cls="Cadence", func="add_signal", what="nth:frame.ts:1",      # inside the loop over frames; elementwise on the time axis
+         params=[("ts", "Q"), ("frame_start", "Q"), ("cadence_start", "Q")], ret="Q", opaque={"frame.t_start": "frame_start", "self.t_start": "cadence_start"}),
+    dict(group="16", name="overwrite_start", file="setigen/cadence.py", cls="Cadence", func="overwrite_times", what="nth:frame.t_start:1",   # loop over frames[1:]
+         params=[("prev_stop", "Q"), ("t_slew", "Q")], ret="Q", opaque={"self.frames[i].t_stop": "prev_stop"}),
+    dict(group="16", name="slew_time", file="setigen/cadence.py", cls="Cadence", func="slew_times", what="return-elt",
+         params=[("next_start", "Q"), ("prev_stop", "Q")], ret="Q", opaque={"self.frames[i].t_start": "next_start", "self.frames[i - 1].t_stop": "prev_stop"}),
     dict(group="17", name="dedrift_max_offset", file="setigen/dedrift.py", cls=None, func="dedrift", what="assign:max_offset",
          params=[("drift_rate", "Q"), ("tchans", "Z"), ("dt", "Q"), ("df", "Q")], ret="Z"),
     dict(group="17", name="dedrift_offset", file="setigen/dedrift.py", cls=None, func="dedrift", what="nth:offset:1",      # inside the loop over rows i
@@ -131,6 +137,17 @@ def find_func(tree, cls, func):
 
 def pick(fn, what):
     """-> the expression AST the spec entry refers to"""
+    if what == "return-elt":
+        # the element expression of `return np.array([<elt> for ...])` / `return [<elt> for ...]`
+        rets = [n for n in ast.walk(fn) if isinstance(n, ast.Return) and n.value is not None]
+        if len(rets) != 1:
+            raise Untranslatable("%d return statements" % len(rets))
+        v = rets[0].value
+        if isinstance(v, ast.Call) and len(v.args) == 1:
+            v = v.args[0]
+        if not isinstance(v, ast.ListComp):
+            raise Untranslatable("return value is not a list comprehension")
+        return v.elt
     if what == "return":
         rets = [n for n in ast.walk(fn) if isinstance(n, ast.Return) and n.value is not None]
         if len(rets) != 1:
